@@ -342,11 +342,14 @@ func twoThreadsEndpoints() {
 	if err != nil {
 		kit.Failf("setup", "NewListener: %s", kit.ErrName(err))
 	}
-	d, err := s.NewDialer(daddr, map[string]interface{}{mangos.OptionDialAsynch: true})
+	// the dialer dials in the background or synchronously (free choice: the two take different paths through Dial)
+	// (over the in-memory tcp network nobody answers the handshake: a synchronous Dial would wait, as documented)
+	asynch := scheme == "tcp" || kit.ChooseFree(2) == 1
+	d, err := s.NewDialer(daddr, map[string]interface{}{mangos.OptionDialAsynch: asynch})
 	if err != nil {
 		kit.Failf("setup", "NewDialer: %s", kit.ErrName(err))
 	}
-	kit.Observe("%s: %s || %s", scheme, epOps[a].name, epOps[b].name)
+	kit.Observe("%s/%v: %s || %s", scheme, asynch, epOps[a].name, epOps[b].name)
 	ca := kit.Start("A:"+epOps[a].name, func() (interface{}, error) { return nil, epOps[a].run(l, d) })
 	cb := kit.Start("B:"+epOps[b].name, func() (interface{}, error) { return nil, epOps[b].run(l, d) })
 	kit.Quiesce()
@@ -363,6 +366,11 @@ func twoThreadsEndpoints() {
 	if a == b && (epOps[a].name == "Listener.Listen" || epOps[a].name == "Dialer.Dial") {
 		if (ca.Err == nil) == (cb.Err == nil) {
 			kit.Failf("started-twice:"+epOps[a].name, "%s: two concurrent %s calls on one object returned %s and %s; exactly one may take effect", scheme, epOps[a].name, kit.ErrName(ca.Err), kit.ErrName(cb.Err))
+		}
+	}
+	if a == b && epOps[a].name == "Dialer.Dial" && scheme == "vt" {
+		if n := vt.Get("c11-ep-d").NumPipes(); n > 1 {
+			kit.Failf("started-twice:Dialer.Dial", "two concurrent Dial calls on one dialer (asynchronous: %v) made %d connections", asynch, n)
 		}
 	}
 	gc := kit.Start("GetOption-after", func() (interface{}, error) { _, err := s.GetOption(mangos.OptionReconnectTime); return nil, err })
